@@ -20,8 +20,9 @@ GLOBAL_TRUSTED_BASE = [
     "Coq 8.16.1 kernel (coqc); vm_compute used for finite sweeps and witnesses; native_compute not used",
     "no Axiom/Parameter/Admitted in /verif/coq (grep gate in ./check); Print Assumptions output per theorem recorded below",
     "hand-written Gallina models of the Python functions named in DESIGN.md section 6, tied to /repo by the correspondence run of this check",
-    "harness/gen_tables.py (tables regenerated from /repo on every run, fail-closed)",
-    "extraction with ExtrOcamlBasic directives only; ml_src/drvlib.ml + per-property driver; canonicalisers in harness/common.py",
+    "harness/gen_tables.py (tables regenerated from /repo on every run; when a generator does not understand a changed source shape the committed coq/GenBaseline table is used and the run says so: coverage.translator_fallback)",
+    "primality/order certificates (Proofs/CurvePrimes.v, CurveOrder*.v) were found with sympy outside Coq and are untrusted: every step is re-checked by the kernel; Proofs/EcAssocAlg.v uses `Set Primitive Projections` for one record (no kernel check is switched off)",
+    "extraction with ExtrOcamlBasic directives only (its Extract Inductive for bool, option, unit, list, prod, sumbool, sumor and Extract Inlined Constant for andb/orb; no Extract Constant of ours; Z, N, positive, nat stay the extracted Coq datatypes); ml_src/drvlib.ml + per-property driver; canonicalisers in harness/common.py",
     "CPython 3.12, hashlib/hmac (OpenSSL) as hash oracles",
 ]
 
